@@ -75,6 +75,15 @@ def run(program, res, tier):
             bm = bind_map(call, callee)
             # feeds of the callee (may be the un-parsed builder: map through its own delegation)
             if leaf:
+                # the copy of a leaf that is not replaced is the same leaf: every constructor parameter that is stored is handed over
+                stored_params = sorted({pp for f, ps in k.init_fields.items() for pp in ps})
+                for pp in stored_params:
+                    if pp in bm:
+                        res.ok("C07-S1", f"{k.name}.replace_leaves: the copy of an un-replaced leaf is given `{pp}`")
+                    else:
+                        res.fail_at("C07-S1", rl, f"leaf-copy-drops:{pp}",
+                                    f"{k.name}.replace_leaves copies a leaf that is not replaced without its `{pp}`: after a >> b (or replace_leaves / eval with a "
+                                    f"map) the other leaves of b have lost it — e.g. the stored example data (head, nrows), so b.ex() works and the composed pipeline's .ex() raises", call)
                 feeds = {}
                 for f, ps in k.init_fields.items():
                     for pp in ps:
@@ -102,9 +111,12 @@ def run(program, res, tier):
                     res.ok("C07-S1", f"{k.name}.replace_leaves {param}<-{sorted(fields)}", {"feeds": sorted(fed)})
     res.expect_count("C07-S1", "field/slot instances", n_inst, 40)
     _s1c(program, model, res)
+    _s1d_tuple_fields(program, model, res)
     _s1b(model, res)
     _s2(program, res)
     _s3(program, res)
+    res.rule("C07-S4", "composition does not drop an ordering that a later step of b observes")
+    _s4_trailing_order(program, model, res)
 
 
 def _feeds_through(model, k, callee):
@@ -169,6 +181,87 @@ def _unconditional_source_replacement(program, fnode, module, sources_expr="self
                 ok, why, node = _unconditional_source_replacement(program, callee, module, sources_expr=pname, depth=depth + 1)
                 return ok, (why + f" (in helper {callee.name})" if why else ""), node if ok else c
     return False, "no expression rebuilds the sources with replace_leaves", fnode
+
+
+def _tuple_fields(cls_info) -> set:
+    """fields of a class that hold a tuple on every path: assigned `self.f = n` where n was normalised by `n = tuple(...)`
+    (unconditionally, or under `if not isinstance(n, tuple)`) earlier at the top level of the same function, or a tuple display"""
+    out, not_tuple = set(), set()
+    for m in cls_info.methods.values():
+        top = list(m.node.body)
+        for i, st in enumerate(top):
+            if not (isinstance(st, ast.Assign) and len(st.targets) == 1 and isinstance(st.targets[0], ast.Attribute)
+                    and isinstance(st.targets[0].value, ast.Name) and st.targets[0].value.id == "self"):
+                continue
+            f, v = st.targets[0].attr, st.value
+            ok = isinstance(v, ast.Tuple) or (isinstance(v, ast.Call) and dotted_name(v.func) == "tuple")
+            if isinstance(v, ast.Name):
+                norm = False
+                for prev in top[:i]:
+                    if isinstance(prev, ast.Assign) and unparse(prev.targets[0]) == v.id:
+                        norm = isinstance(prev.value, ast.Tuple) or (isinstance(prev.value, ast.Call) and dotted_name(prev.value.func) == "tuple")
+                    elif isinstance(prev, ast.If):
+                        assigns = [a for a in ast.walk(prev) if isinstance(a, ast.Assign) and unparse(a.targets[0]) == v.id]
+                        if assigns:
+                            tuple_valued = all(isinstance(a.value, ast.Tuple) or (isinstance(a.value, ast.Call) and dotted_name(a.value.func) == "tuple") for a in assigns)
+                            guards = unparse(prev.test).replace(" ", "")
+                            covers = f"notisinstance({v.id},tuple)" in guards or (f"{v.id}isNone" in guards and f"notisinstance({v.id},tuple)" in unparse(prev).replace(" ", ""))
+                            norm = tuple_valued and covers
+                ok = norm
+            (out if ok else not_tuple).add(f)
+    return out - not_tuple
+
+
+def _s1d_tuple_fields(program, model, res):
+    """a rebuild method may only use what a tuple offers on fields the constructors normalise to tuples"""
+    base = program.cls("view_representations", "ViewRepresentation")
+    base_t = _tuple_fields(base)
+    if "column_names" not in base_t or "sources" not in base_t:
+        raise AnalysisError(f"ViewRepresentation.__init__: column_names/sources are no longer recognised as normalised to tuples (found {sorted(base_t)})")
+    tuple_api = set(dir(tuple))
+    n = 0
+    for k in model.kinds.values():
+        tf = set(base_t)
+        own = _tuple_fields(k.cls)
+        # a subclass may re-assign the field with another type
+        for m in k.cls.methods.values():
+            for st in ast.walk(m.node):
+                if isinstance(st, ast.Assign) and isinstance(st.targets[0], ast.Attribute) and unparse(st.targets[0].value) == "self" \
+                        and st.targets[0].attr in tf and st.targets[0].attr not in own:
+                    tf.discard(st.targets[0].attr)
+        tf |= own
+        for m in k.cls.methods.values():
+            for a in ast.walk(m.node):
+                if isinstance(a, ast.Attribute) and isinstance(a.value, ast.Attribute) and unparse(a.value.value) == "self" and a.value.attr in tf:
+                    n += 1
+                    if a.attr not in tuple_api:
+                        res.fail_at("C07-S1", m, f"tuple-field-used-as-list:{a.value.attr}.{a.attr}",
+                                    f"{k.name}.{m.name} calls self.{a.value.attr}.{a.attr}, but the constructors store {a.value.attr} as a tuple, which has no "
+                                    f"`{a.attr}`: the method raises AttributeError whenever this line is reached (replace_leaves of a leaf that is not replaced: "
+                                    f"every composition into a pipeline that keeps this leaf fails)", a)
+    res.ok("C07-S1", f"{n} attribute uses of tuple-valued node fields stay within the tuple API")
+
+
+def _s4_trailing_order(program, model, res):
+    """a >> b rebuilds b's steps on top of a with the ordinary builders: where those drop a trailing order_rows of `a`
+    before a step that keeps or reads the row order, the composed pipeline is not b applied to the result of a"""
+    from .. import facts
+    from . import c06
+    orn = program.cls("view_representations", "OrderRowsNode").methods.get("is_trivial_when_intermediate_")
+    if orn is None:
+        raise AnalysisError("anchor vanished: OrderRowsNode.is_trivial_when_intermediate_")
+    if all(isinstance(r.value, ast.Constant) and r.value.value is False for r in ast.walk(orn.node) if isinstance(r, ast.Return)):
+        res.ok("C07-S4", "order_rows is never eliminated when b's steps are rebuilt on a")
+        return
+    bad = sorted(m.name for (m, _r) in c06.order_elimination_sites(model)
+                 if facts.ORDER_ROLE_OF_BUILDERS.get(m.name, ("unclassified", ""))[0] != "replaces")
+    if bad:
+        res.fail("C07-S4", "view_representations:ViewRepresentation", "composition-drops-trailing-order_rows",
+                 f"composition rebuilds b's first step with a builder that drops a's trailing un-limited order_rows ({', '.join(bad)}): "
+                 f"with a = d.order_rows(['x']) and b = t.extend(...).order_rows([], limit=2) (or a project with first()), a >> b takes rows of the unsorted "
+                 f"table while b applied to the result of a keeps the order", "data_algebra/view_representations.py", orn.node.lineno)
+    else:
+        res.ok("C07-S4", "every builder that drops a preceding order_rows makes the incoming row order unobservable")
 
 
 def _s1c(program, model, res):
